@@ -254,6 +254,35 @@ def refusal_run(role, variant, obs):
     return problems
 
 
+def peer_lengths_run(role, total, obs):
+    ''' Incoming transfers whose START segment announces a total length across the integer widths a variant can carry; every
+    receive signal must marshal and the transfers behind it must still be announced. '''
+    from vf.props import c17
+    from vf.oracles import tcpcl_wire as tw
+    peer = c17.Peer(role, 'idle')
+    problems = []
+    peer.write(tw.encode(dict(type='XFER_SEGMENT', flags=tw.FLAG_START, transfer_id=301, ext=[tw.transfer_length_ext(total)] if total is not None else [],
+                              data=b'abc')))
+    peer.settle()
+    peer.write(tw.encode(dict(type='XFER_SEGMENT', flags=tw.FLAG_END, transfer_id=301, data=b'def')))
+    peer.settle()
+    peer.write(tw.encode(dict(type='XFER_SEGMENT', flags=tw.FLAG_START | tw.FLAG_END, transfer_id=302, ext=[tw.transfer_length_ext(4)], data=b'wxyz')))
+    peer.settle()
+    obs['runs'] += 1
+    for viol in peer.sim.hist.sig_violations:
+        problems.append(('type', '%s %s.%s%r does not marshal as %r: %s %s' % (viol.kind, viol.iface, viol.member, viol.args_repr[:80], viol.signature,
+                                                                               viol.exc_type, viol.msg[:60])))
+    errs = peer.sim.world.callback_errors
+    if errs:
+        problems.append(('raised', 'callback %s raised %s: %s (announced total length %r)' % (errs[0].source, errs[0].exc_type, str(errs[0].exc)[:80], total)))
+    started = [str(ev['args'][0]) for ev in peer.sim.hist.signals('recv_bundle_started')]
+    finished = [str(ev['args'][0]) for ev in peer.sim.hist.signals('recv_bundle_finished')]
+    obs['signals_checked'] += len(started) + len(finished)
+    if not peer.closed() and (started != ['301', '302'] or finished != ['301', '302']):
+        problems.append(('recv-signals', 'two incoming transfers (first announces total length %r): started %s, finished %s' % (total, started, finished)))
+    return problems
+
+
 # ---------------------------------------------------------------- two real tcpcl agents
 
 def agent_run(params, obs):
@@ -458,6 +487,9 @@ def cases(tier, seed):
     for role in ('passive', 'active'):
         for variant in ('refuse-after-end', 'refuse-in-progress', 'refuse-after-end2'):
             out.append(dict(id='refuse-%s-%s' % (role, variant), kind='refuse', role=role, variant=variant))
+    for role in ('passive', 'active'):
+        for total in (None, 0, 6, 2 ** 31 - 1, 2 ** 31, 2 ** 32 + 5, 2 ** 63, 2 ** 64 - 1):
+            out.append(dict(id='peerlen-%s-%s' % (role, total), kind='peerlen', role=role, total=total))
     idx = 0
     for contacts in (0, 1, 2, 3):
         for who in ('A', 'B'):
@@ -541,6 +573,9 @@ def run_case(case):
     elif case['kind'] == 'refuse':
         note(refusal_run(case['role'], case['variant'], obs), 'refuse', dict(role=case['role'], variant=case['variant']),
              'refuse|%s|%s' % (case['role'], case['variant']))
+    elif case['kind'] == 'peerlen':
+        note(peer_lengths_run(case['role'], case['total'], obs), 'peerlen', dict(role=case['role'], total=case['total']),
+             'peerlen|%s|%s' % (case['role'], case['total']))
     elif case['kind'] == 'agent':
         params = {k: case[k] for k in ('contacts', 'who', 'pre_steps', 'mid_steps', 'bundles', 'seed', 'policy', 'stagger')}
         note(agent_run(params, obs), 'agent', params, 'agent|%s' % sorted(params.items()))
